@@ -501,10 +501,18 @@ func checkEvaluator(pl *pool, rt *ssa.Function) {
 	for _, sname := range []string{"Ready", "Connecting", "TF"} {
 		batoms = append(batoms, eqAtom("old=="+sname, isVal(rt.Params[1]), constIs(stateConst[sname])), eqAtom("new=="+sname, isVal(rt.Params[2]), constIs(stateConst[sname])))
 	}
+	// a transition that does not change the state may be skipped as a whole (−1 and +1 on the same counter cancel)
+	batoms = append(batoms, eqAtom("old==new", isVal(rt.Params[1]), isVal(rt.Params[2])))
 	bcs := newCondSpace(rt, recOf(batoms...), atomNames(batoms...)...)
 	bcs.ExclusiveAtoms("old==Ready", "old==Connecting", "old==TF")
 	bcs.ExclusiveAtoms("new==Ready", "new==Connecting", "new==TF")
-	nst, usedA := 0, false
+	for _, sname := range []string{"Ready", "Connecting", "TF"} {
+		o, n2, same := bcs.Atom("old=="+sname), bcs.Atom("new=="+sname), bcs.Atom("old==new")
+		bcs.Univ = and(bcs.Univ, bcs.Not(bcs.And(same, o, bcs.Not(n2))))
+		bcs.Univ = and(bcs.Univ, bcs.Not(bcs.And(same, n2, bcs.Not(o))))
+		bcs.Univ = and(bcs.Univ, bcs.Not(bcs.And(bcs.Not(same), o, n2)))
+	}
+	nst, usedA, nSkipSame, nStepB := 0, false, 0, 0
 	perCounter := map[string][2]int{}
 	for _, a := range pl.ai.ByFn[rt] {
 		sname, ok := pairs[a.Field]
@@ -515,11 +523,42 @@ func checkEvaluator(pl *pool, rt *ssa.Function) {
 		st := a.Instr.(*ssa.Store)
 		construct := "recordTransition updates " + lastDot(a.Field)
 		bo, isB := st.Val.(*ssa.BinOp)
-		if !isB || !isLoadOf(bo.X, a.Field) || (bo.Op != token.ADD && bo.Op != token.SUB) {
+		ownValue := isB && isLoadOf(bo.X, a.Field)
+		// through a local pointer merged from the counters' addresses (`c := cse.counterOf(state); *c += d`): the store is one
+		// to this counter on the ways on which the pointer is this counter's address, and `*c` is then its own value
+		reachSt := bcs.Reach(st)
+		if a.Via != nil {
+			ownValue = false
+			if isB {
+				if ld, isLd := bo.X.(*ssa.UnOp); isLd && ld.Op == token.MUL && ld.X == ssa.Value(a.Via) {
+					ownValue = true
+				}
+			}
+			reachSt = bcs.False()
+			for _, rv := range bcs.ResolveWithConds(a.Via, bcs.Reach(st)) {
+				if rv.V == ssa.Value(a.Addr) {
+					reachSt = or(reachSt, rv.C)
+				}
+			}
+		}
+		if !isB || !ownValue || (bo.Op != token.ADD && bo.Op != token.SUB) {
 			c.fail("C04.eval", construct, p.ipos(st), "counter is not updated by adding/subtracting to its own value: "+vstr(st.Val))
 			continue
 		}
 		d, isC := constInt(bo.Y)
+		if !isC {
+			// a delta computed from constants (`2*uint64(idx) − 1` with idx a constant after unrolling), in 64 unsigned bits
+			if u, okF := foldUint64(bo.Y, 0); okF {
+				switch u {
+				case 1:
+					d, isC = 1, true
+				case math.MaxUint64:
+					if b, isBasic := bo.Type().Underlying().(*types.Basic); isBasic && b.Kind() == types.Uint64 {
+						d, isC = -1, true
+					}
+				}
+			}
+		}
 		if !isC {
 			// the counters are unsigned 64-bit: adding 2^64−1 (written ^uint64(0)) is subtracting one
 			if k, isK := stripConv(bo.Y).(*ssa.Const); isK && k.Value != nil && k.Value.Kind() == constant.Int {
@@ -540,7 +579,14 @@ func checkEvaluator(pl *pool, rt *ssa.Function) {
 			if delta < 0 {
 				atom = "old==" + sname
 			}
-			eq, wit := bcs.EquivStrict(bcs.Reach(st), bcs.Atom(atom))
+			eq, wit := bcs.EquivStrict(reachSt, bcs.Atom(atom))
+			nStepB++
+			if !eq && bcs.Seen("old==new") {
+				if eq2, _ := bcs.EquivStrict(reachSt, bcs.And(bcs.Atom(atom), bcs.Not(bcs.Atom("old==new")))); eq2 {
+					eq = true
+					nSkipSame++
+				}
+			}
 			pc := perCounter[a.Field]
 			if delta < 0 {
 				pc[0]++
@@ -581,6 +627,9 @@ func checkEvaluator(pl *pool, rt *ssa.Function) {
 			fmt.Sprintf("counter %s updated for the wrong state or by the wrong amount (%s) %s", a.Field, vstr(st.Val), wit))
 	}
 	c.floor("C04.eval-updates", nst, 3)
+	if nSkipSame > 0 {
+		c.check(nSkipSame == nStepB, "C04.eval", "recordTransition: unchanged state skipped consistently", p.pos(rt.Pos()), "when old == new every step is skipped (the −1 and +1 would cancel)", "only some of the counter steps are skipped when the state does not change")
+	}
 	for f := range pairs {
 		pc := perCounter[f]
 		c.check(pc[0] == 1 && pc[1] == 1, "C04.eval", "recordTransition: "+lastDot(f)+" stepped once down, once up", p.pos(rt.Pos()), "one decrement (old state) and one increment (new state) per transition", fmt.Sprintf("counter has %d decrement(s) and %d increment(s)", pc[0], pc[1]))
@@ -607,4 +656,44 @@ func checkEvaluator(pl *pool, rt *ssa.Function) {
 		})
 		c.check(okOrder == 2, "C04.eval", "recordTransition: [old,new] order", p.pos(rt.Pos()), "index 0 is the old state, index 1 the new state", "the slice ranged over is not [oldState, newState]")
 	}
+}
+
+// foldUint64 evaluates an expression built from integer constants with +, −, × and conversions, in 64 unsigned bits.
+func foldUint64(v ssa.Value, d int) (uint64, bool) {
+	if d > 6 {
+		return 0, false
+	}
+	switch x := v.(type) {
+	case *ssa.Const:
+		if x.Value == nil || x.Value.Kind() != constant.Int {
+			return 0, false
+		}
+		if u, exact := constant.Uint64Val(x.Value); exact {
+			return u, true
+		}
+		if i, exact := constant.Int64Val(x.Value); exact {
+			return uint64(i), true
+		}
+		return 0, false
+	case *ssa.Convert:
+		if b, ok := x.Type().Underlying().(*types.Basic); !ok || (b.Kind() != types.Uint64 && b.Kind() != types.Int64 && b.Kind() != types.Int && b.Kind() != types.Uint) {
+			return 0, false
+		}
+		return foldUint64(x.X, d+1)
+	case *ssa.BinOp:
+		a, okA := foldUint64(x.X, d+1)
+		b, okB := foldUint64(x.Y, d+1)
+		if !okA || !okB {
+			return 0, false
+		}
+		switch x.Op {
+		case token.ADD:
+			return a + b, true
+		case token.SUB:
+			return a - b, true
+		case token.MUL:
+			return a * b, true
+		}
+	}
+	return 0, false
 }
